@@ -10,7 +10,7 @@ CW = "loky.cloudpickle_wrapper"
 
 M.cls("CloudpickledObjectWrapper", {"_obj": T.Obj, "_keep_wrapper": T.Bool})
 M.cls("CallableObjectWrapper", {}, bases=["CloudpickledObjectWrapper"])
-M.cls("CloudpickledClassWrapper", {}, bases=["CloudpickledObjectWrapper"])
+M.cls("CloudpickledClassWrapper", {}, bases=["CloudpickledObjectWrapper"], src_path="wrap_non_picklable_objects.CloudpickledClassWrapper")
 M.glob("WRAP_CACHE", T.Map(T.Obj, T.Obj))
 
 _cp_dumps = z3.Function("cp_dumps", T.IntS, T.IntS)
